@@ -50,6 +50,16 @@ MUTATIONS: dict[str, tuple[str, str, str, str]] = {
     "lin-product-pool": (LIN, 'fn=_one_div, args=[product.split("__")[0]]', 'fn=_one_div, args=[(substrate if substrate != "EXT" else product).split("__")[0]]', "product coefficient uses the substrate's pool"),
     "lin-rate-from-product": (LIN, "                    args=[substrate, rxn_name],\n", "                    args=[product if product != \"EXT\" else substrate, rxn_name],\n", "transfer rate uses the product's enrichment"),
     "lin-ext-not-padded-efflux": (LIN, '        products.extend(["EXT"] * diff)\n', "        products.extend([products[-1] if products else \"EXT\"] * diff)\n", "label efflux positions are sent to the last product position"),
+    # ---- stoichiometric coefficients of magnitude >= 2 (second deepening; seeded C16-4 = the first one) ----
+    "lin-keys-only-expansion": (
+        LIN,
+        "            subs = _stoichiometry_to_duplicate_list(subs)\n            prods = _stoichiometry_to_duplicate_list(prods)\n"
+        "            subs = [j for i in subs for j in isotopomers[i]]\n            prods = [j for i in prods for j in isotopomers[i]]\n",
+        "            subs = [pos for name in subs for pos in isotopomers[name]]\n            prods = [pos for name in prods for pos in isotopomers[name]]\n",
+        "build_model iterates the {compound: coefficient} dicts: every compound once whatever its coefficient (seeded C16-4)",
+    ),
+    "lin-products-not-duplicated": (LIN, "            prods = _stoichiometry_to_duplicate_list(prods)\n", "            prods = list(prods)\n", "only the substrate side is expanded by its coefficients"),
+    "lin-duplicates-capped-at-two": (LIN, "        long_form.extend([k] * v)\n", "        long_form.extend([k] * min(v, 2))\n", "a coefficient 3 gives two copies"),
 }
 REVERSALS = {"revert-fix-zero-label": FIX_ZERO, "revert-fix-direction": FIX_DIR}
 
